@@ -223,7 +223,7 @@ def run_check(mod, tier, seed, jobs=None):
             unlisted.append((key, v))
     for key in sorted(set(known) - seen_known):
         print(f"note: known finding {key} was not observed in this {tier} run (tier may not reach it)")
-    rdir = os.path.join(VERIF, 'replays', pid)
+    rdir = os.path.join(VERIF, 'replays', pid + ('-scratch' if os.environ.get('VERIF_NO_EVIDENCE') else ''))
     for key, v in unlisted:
         os.makedirs(rdir, exist_ok=True)
         path = os.path.join(rdir, slug(key) + '.json')
@@ -242,6 +242,8 @@ def run_check(mod, tier, seed, jobs=None):
 
 
 def write_evidence(mod, ctx, tier, seed, wall, total, nviol, known_seen):
+    if os.environ.get('VERIF_NO_EVIDENCE'):
+        return   # mutant / scratch-tree runs must not overwrite the evidence of the real tree
     cov = {
         'evaluations': ctx.evaluations,
         'distinct_nontrivial': len(ctx.nontrivial),
